@@ -114,7 +114,7 @@ m = {
    {"name": "stubsetup", "path": "/verif/lib/stubsetup.py", "serves_properties": [],
     "kind_free_text": "extension X03 (not a listed property; ./check X03): identity and connection source of a stub (tla/StubSetup), child processes with the scenario's environment / options / argv[0] (harness/setupdrv), TLC trace validation (tla/Trace_StubSetup)"},
    {"name": "apihelpers", "path": "/verif/lib/apihelpers.py", "serves_properties": [],
-    "kind_free_text": "extension X04 (not a listed property; ./check X04): exported helpers of pkg/api - ParseEventMask shorthands, removal markers, Mount.Cmp / LinuxDevice.Cmp, Hooks.Append (tla/ApiHelpers, harness/helpdrv, tla/Trace_ApiHelpers); two findings under property=X04"},
+    "kind_free_text": "extension X04 (not a listed property; ./check X04): exported helpers of pkg/api - ParseEventMask shorthands, ParsePluginName / CheckPluginIndex, EventMask Set / Clear / IsSet / PrettyString and its re-parse, removal markers, Mount.Cmp / LinuxDevice.Cmp, Hooks.Append (tla/ApiHelpers, harness/helpdrv, tla/Trace_ApiHelpers); two findings under property=X04"},
    {"name": "legacy", "path": "/verif/lib/legacy.py", "serves_properties": [],
     "kind_free_text": "extension X05 (not a listed property; ./check X05): the v0.1.0 plugin chain - nri.Client.InvokeWithSandbox, skel.Run, types/v1 - as a state machine (tla/Legacy, tla/Gen_Legacy), chains of plugin processes run by a real client (harness/legacydrv, guarded constructor client_verif.go), TLC trace validation (tla/Trace_Legacy); one finding under property=X05 (skel.Run without an argument)"},
    {"name": "adaptlife", "path": "/verif/lib/adaptlife.py", "serves_properties": [],
